@@ -86,7 +86,8 @@ def gen_prelude(repo):
     body = ex.fn_body(DT, r"fn from\(timestamp: std::time::SystemTime\) -> DateTime", within=r"impl From<std::time::SystemTime> for DateTime")
     prefix, _ = ex.split_after(body, "let (t, nanos) = match timestamp.duration_since(std::time::UNIX_EPOCH)")
     return ("\n// ---- mechanically extracted from " + DT + " (T4 prefix) ----\n"
-            "fn __extracted_prelude(timestamp: std::time::SystemTime) -> (i64, u32) {\n" + prefix + "\n    (t, nanos)\n}\n")
+            "fn __extracted_prelude(timestamp: std::time::SystemTime) -> (i64, u32) {\n" + prefix + "\n    (t, nanos)\n}\n"
+            "fn __extracted_civil(t: i64, nanos: u32) -> DateTime {\n" + _ + "\n}\n")
 
 
 PLAN = dict(
@@ -98,13 +99,12 @@ PLAN = dict(
         "`valid_date(y,m,d) && h<24 && mi<60 && s<60 && unix_day(y,m,d)*86400 + h*3600 + mi*60 + s == t` where unix_day is the textbook "
         "Rata-Die day count, and proved by Verus for every i64 second count (no bound), including absence of overflow, in-range casts, "
         "in-bounds indexing and termination of the month loop. Lemmas prove unix_day strictly monotone on valid dates, hence the decomposition is "
-        "unique and successive instants print in non-decreasing order. The SystemTime -> (secs, nanos) prelude and a paired copy of the "
-        "postcondition on the whole `DateTime::from` are Kani obligations on the real crate; Display layout is a bounded Kani stand-in."),
+        "unique and successive instants print in non-decreasing order. The SystemTime -> (secs, nanos) prelude is a Kani obligation on the statement extracted from the real function; the Display layout (zero padding by core::fmt) is assumed. That `nanos / 1000` truncates is lemma_micros_truncate; that Display prints exactly that expression is not decided."),
     verus=[dict(name="civil", builder="build_civil", rlimit=200,
                 obligations=["civil_from_secs", "lemma_calendar", "lemma_years", "lemma_leaps_shift", "lemma_leaps_step", "sanity",
                              "lemma_unix_day_strictly_monotone", "lemma_order_preserving", "lemma_year_mono", "lemma_year_step",
                              "lemma_doy_bounds", "lemma_doy_mono", "lemma_micros_truncate"],
-                paired=[])],
+                paired=["c20_civil_window_bounded"], exec_fns=["civil_from_secs"])],
     kani=[dict(
         crate="tracing-subscriber", tls_shim=True, tls_shim_crates=["tracing-core", "tracing-subscriber"], once_cell_stub=True,
         modules=[dict(name="__verif_c20", attach="inline", file=DT, modpath="fmt::time::datetime", files=["datetime.kani.rs"], generator="gen_prelude")],
@@ -123,11 +123,11 @@ PLAN = dict(
     ],
     not_covered=["the excluded instant tv_sec = i64::MIN with nsec = 0 (debug_assert fires)"],
     manifest=dict(
-        technique="Verus postcondition on the mechanically extracted calendar function against a Rata-Die spec, all i64; Kani for the std-typed prelude and Display",
+        technique="Verus postcondition on the mechanically extracted calendar function against a Rata-Die spec, all i64; Kani for the std-typed prelude",
         text=("Proof: for every i64 second count the date/time fields the real calendar code computes satisfy the proleptic-Gregorian spec "
               "(Verus, unbounded), the decomposition is unique and order-preserving (lemmas), micros = nanos/1000 truncates. The std-typed prelude "
-              "and the Display layout are Kani obligations (prelude complete over all Durations; Display bounded)."),
+              "is a Kani obligation (complete over all Durations, loop-free)."),
         note=("Trusted: Verus/Z3 and vstd integer specs; the logged extraction T1-T6; Kani/CBMC for the prelude. Not decided: the clock itself, "
-              "core::fmt's padding implementation beyond the bounded Display harness, the single excluded instant tv_sec=i64::MIN."),
+              "core::fmt's padding implementation (Display layout assumed), the single excluded instant tv_sec=i64::MIN."),
         design_ref="DESIGN.md section 4, C20"),
 )
